@@ -63,7 +63,7 @@ class Prop(BaseProp):
         for _ in range(n):
             r = rng.random()
             if r < 0.5:
-                items.append(gen.variant(rng, rng.choice(names)) if names and rng.random() < 0.75 else rng.choice(['zq', 'foo', 'u1']))
+                items.append(gen.variant(rng, rng.choice(names)) if names and rng.random() < 0.75 else rng.choice(['zq', 'foo', 'u1', 'AdditionRef-x', 'LicenseRef-y']))
             elif r < 0.75:
                 items.append(gen.recase(rng, 'with'))
             elif r < 0.9:
